@@ -15,6 +15,14 @@ fn key_pool() -> Vec<&'static str> {
         "0.0", "(-0.0)", "0", "(0/1)", "(0.0/0.0)", "((0.0/0.0)+1i)", "(1+(0.0/0.0)*1i)", "2", "2.0", "(4/2)", "(1/3)",
         "0.3333333333333333", "float(\"inf\")", "float(\"-inf\")", "(2^53+1)", "9007199254740992.0", "2^53",
         "(3/2)", "1.5", "(1+1i)", "(0-1)", "(-1.0)", "10^30", "1e30", "(10^30/1)",
+        // machine-word boundaries as integers AND as their float / rational / complex twins
+        "2^63", "2.0^63", "(2^63/1)", "(2.0^63+0i)", "2^63-1", "9223372036854775807.0", "2^63+1", "2^63-1024",
+        "9223372036854774784.0", "(0-2^63)", "(0-2.0^63)", "((0-2^63)/1)", "(0-2^63-1)", "(0-2^63-2048)",
+        "(0-9223372036854777856.0)", "2^64-1", "2^64+1", "18446744073709549568.0", "2^64-2048", "2^53-1",
+        "9007199254740991.0", "9007199254740993.0", "2^31", "2.0^31", "2^32", "2.0^32", "(0-2^31)", "(0-2.0^31)",
+        "[2^63]", "[2.0^63]", "[0-2^63]", "[0-2.0^63]", "[2^63-1]", "[2^53]", "[9007199254740992.0]", "[2^53+1]",
+        "V(2^63)", "V(2.0^63)", "V(0-2^63)", "V(0-2.0^63)", "V(2^64)", "V(2.0^64)", "V(2^53)", "V(9007199254740992.0)",
+        "{2^63: 1}", "{2.0^63: 1}", "[[2^63, 2.0^64]]", "[[2.0^63, 2^64]]",
         // other key kinds
         "null", "\"a\"", "\"1\"", "\"\"", "B\"a\"",
         // nested in lists, vectors, dicts
@@ -87,6 +95,8 @@ struct Gen<'a> {
     bad: &'a [Elem],
     vals: &'a [Elem],
     cases: Vec<Case>,
+    /// for every pool key the indices of the other pool keys that are == to it (NaNs: each other)
+    twins: Vec<Vec<usize>>,
     /// source text that rebuilds the current sequence from scratch (for replay)
     script: Vec<String>,
 }
@@ -268,7 +278,14 @@ fn run_sequence(g: &mut Gen, rng: &mut Rng, n_ops: usize) {
         }
         // lookups: the key just used, and a sample of the pool
         let mut probes: Vec<&Elem> = vec![k];
-        for _ in 0..7 {
+        // the same key through its equal twins of other levels / representations
+        if let Some(ki) = g.keys.iter().position(|e| std::ptr::eq(e, k)) {
+            let tw = &g.twins[ki];
+            for _ in 0..3.min(tw.len()) {
+                probes.push(&g.keys[*rng.pick(tw)]);
+            }
+        }
+        for _ in 0..5 {
             probes.push(pick_key(rng, g.keys, g.bad));
         }
         for p in probes {
@@ -357,12 +374,47 @@ fn main() {
          strings, bytes, null, and the same nested in lists, vectors and dicts) + 4% invalid keys (functions); every op is \
          sent to the model with the real pre-state; after every op: len, lookups / in / !? of the used key and 7 more \
          pool keys, and every third time keys/values/items; a case is non-trivial unless its key is a small int literal; \
-         distinct = distinct (script, expression)",
+         distinct = distinct (script, expression); before the sequences an EXHAUSTIVE twin sweep over all ordered pairs (a, b) of pool keys: {{a: 5}}[b], set([a, b]) and for a sixth of them b in {{a: 5}}, {{a: 5}} insert [b, 7]; pool includes +-2^63, 2^63-1, 2^53, 2^53+1, 2^64, 2^31, 2^32 as ints and float/rational/complex twins, also nested in lists/vectors/dicts; sequences probe every used key through up to 3 of its equal twins",
         n_seq, max_ops, keys.len()
     );
 
+    // twin table from the real `==` (all NaN-containing numbers are twins of each other)
+    let mut twins: Vec<Vec<usize>> = vec![vec![]; keys.len()];
+    for i in 0..keys.len() {
+        for j in 0..keys.len() {
+            if i == j {
+                continue;
+            }
+            let nanny = |c: &str| c == "nan" || c == "cnan";
+            let eq = matches!(interp.eval(&format!("{} == {}", keys[i].src, keys[j].src)), Outcome::Ok(ref s) if s == "1")
+                || (nanny(&keys[i].class) && nanny(&keys[j].class));
+            if eq {
+                twins[i].push(j);
+            }
+        }
+    }
     let mut rng = Rng::new(args.seed);
-    let mut g = Gen { interp: &interp, keys: &keys, bad: &bad, vals: &vals, cases: vec![], script: vec![] };
+    let mut g = Gen { interp: &interp, keys: &keys, bad: &bad, vals: &vals, cases: vec![], twins, script: vec![] };
+    // ---- exhaustive twin sweep: EVERY ordered pair (a, b) of pool keys: a dictionary keyed by `a`
+    // is read, tested and updated through `b`, and {a, b} is built as a set
+    g.script.clear();
+    g.script.push(PR.to_string());
+    for a in keys.iter() {
+        let d = format!("{{{}: 5}}", a.src);
+        let st = match interp.eval_obj(&d) {
+            Ok(o) => canon(&o),
+            Err(_) => continue,
+        };
+        for b in keys.iter() {
+            let kc = format!("{},{}", a.class, b.class);
+            g.observe(&format!("twin-index({})", kc), &format!("{}[{}]", d, b.src), format!("idx {} {}", st, b.canon), false);
+            g.observe(&format!("twin-set({})", kc), &format!("set([{}, {}])", a.src, b.src), format!("mkset [{},{}]", a.canon, b.canon), false);
+            if g.twins.len() == keys.len() && std::ptr::eq(a, b) == false && rng.chance(1, 6) {
+                g.observe(&format!("twin-in({})", kc), &format!("{} in {}", b.src, d), format!("in {} {}", b.canon, st), false);
+                g.observe(&format!("twin-insert({})", kc), &format!("{} insert [{}, 7]", d, b.src), format!("insp {} [{},7]", st, b.canon), false);
+            }
+        }
+    }
     for _ in 0..n_seq {
         let n_ops = 1 + rng.below(max_ops as u64) as usize;
         run_sequence(&mut g, &mut rng, n_ops);
